@@ -15,11 +15,11 @@ pub fn spec() -> Spec {
         replay,
         nshards: |_| 16,
         case_cap_s: |t| t.pick(120, 900),
-        rule: "one case per labeled connected commuting symbol (every labeling of every symbol occurs, so all renumberings are covered); for each: canonical(s) isomorphic to s (n! oracle), canonical is idempotent, canonical(s) == canonical(class representative) where the representative is the minimum over all n! relabelings (=> equal forms iff isomorphic); large family: harness-built cyclic covers under systematic renumberings. Non-trivial = size >= 2 and not equal to its own class representative.",
+        rule: "one case per labeled connected commuting symbol (every labeling of every symbol occurs, so all renumberings are covered); for each: canonical(s) isomorphic to s (n! oracle), canonical is idempotent, canonical(s) == canonical(class representative) where the representative is the minimum over all n! relabelings (=> equal forms iff isomorphic); large family: harness-built coset symbols of finite Coxeter groups (up to hundreds of chambers) under systematic renumberings. Non-trivial = size >= 2 and not equal to its own class representative.",
         assumptions: &["symbols are built through build_set/build_sym_using_vs (validated by C02)"],
         bounds: |t| json!({"dim1_max_size": 5, "dim2_max_size": t.pick(4, 5), "dim3_max_size": t.pick(3, 4), "V": [1,2,3],
             "dim2_size6_max_two_branched_orbits": t.is_thorough(), "dim3_size4_V": [1,2],
-            "large": "cyclic k-sheeted covers (k = 5, 12, 40) of the 1- and 2-chamber symbols, 9 systematic renumberings each"}),
+            "large": "coset symbols of finite Coxeter groups [3,3] [4,3] [5,3] [2,12] [7,2] [3,3,3] [4,3,3] ([3,4,3] thorough) modulo small subgroups, built by the reference Todd-Coxeter, 8-384 (thorough 1152) chambers, 9 systematic renumberings each"}),
     }
 }
 
@@ -108,7 +108,7 @@ pub fn cyclic_covers(base: &RS, k: usize) -> Vec<RS> {
                     }
                 };
                 let c = base.cover_by(k, &shift);
-                if c.v.iter().all(|r| r.iter().all(|&x| x > 0)) && c.is_involutive() && c.is_connected() {
+                if c.v.iter().all(|r| r.iter().all(|&x| x > 0)) && c.is_involutive() && c.is_connected() && c.commutes() {
                     out.push(c);
                 }
             }
@@ -137,6 +137,22 @@ fn large_family(ctx: &mut Ctx) {
                         ctx.max("largest_symbol", t.n as i64);
                     }
                 }
+            }
+        }
+    }
+    // quotients and universal covers of finite Coxeter groups, built by the reference Todd-Coxeter
+    for (_, c) in coxeter_symbols(ctx.tier.pick(400, 1200)) {
+        if c.n < 8 {
+            continue;
+        }
+        let rn = systematic_renumberings(c.n);
+        let first = c.relabel(&rn[0].1);
+        for (_, p) in &rn {
+            if ctx.take() {
+                let t = c.relabel(p);
+                check_one(ctx, &t, Some(&first), "large");
+                ctx.max("largest_symbol", t.n as i64);
+                ctx.add("large_symbols", 1);
             }
         }
     }
